@@ -6,6 +6,7 @@ import (
 	"encoding/json"
 	"fmt"
 	"math/rand"
+	"net/http"
 	"os"
 	"os/exec"
 	"regexp"
@@ -18,6 +19,7 @@ import (
 	"github.com/ysugimoto/falco/v2/lexer"
 	"github.com/ysugimoto/falco/v2/parser"
 	"github.com/ysugimoto/falco/v2/snippet"
+	"github.com/ysugimoto/falco/v2/snippet/remote"
 	"github.com/ysugimoto/falco/v2/snippet/terraform"
 
 	"verif/harness/fw"
@@ -56,8 +58,8 @@ type director struct {
 }
 type header struct {
 	Name, Action, Type, Source, Destination, Regex, Substitution string
-	IgnoreIfSet                                                   bool
-	Condition                                                     string
+	IgnoreIfSet                                                  bool
+	Condition                                                    string
 }
 type respObj struct {
 	Name, ContentType, Content, Response string
@@ -156,7 +158,8 @@ func ident0(r *rand.Rand) string {
 func looseName(r *rand.Rand) string {
 	s := ident(r)
 	for k := r.Intn(3); k > 0; k-- {
-		s += []string{"-", ".", " ", "_", "-1", ".example.com", " origin"}[r.Intn(7)] + ident(r)
+		// also RUNS of non-identifier characters: each one is sanitised on its own
+		s += []string{"-", ".", " ", "_", "-1", ".example.com", " origin", " - ", "--", "..", " (eu) ", "__"}[r.Intn(12)] + ident(r)
 	}
 	return s
 }
@@ -252,6 +255,10 @@ func genSet(r *rand.Rand) resSet {
 	for k := r.Intn(3); k > 0; k-- {
 		h := header{Name: looseName(r), Action: []string{"set", "append", "delete", "regex", "regex_repeat"}[r.Intn(5)], Type: []string{"request", "cache", "response"}[r.Intn(3)],
 			Source: `"` + ident(r) + `"`, Destination: "http.X-" + ident(r), Regex: "^" + ident(r), Substitution: ident(r), IgnoreIfSet: r.Intn(3) == 0}
+		if r.Intn(2) == 0 {
+			// regular expression and substitution are arbitrary text (quotes, percent signs, braces)
+			h.Regex, h.Substitution = randText(r, 16), randText(r, 16)
+		}
 		if h.Type == "request" && len(s.Conditions) > 0 && r.Intn(2) == 0 {
 			h.Condition = s.Conditions[r.Intn(len(s.Conditions))].Name
 		}
@@ -259,6 +266,13 @@ func genSet(r *rand.Rand) resSet {
 	}
 	for k := r.Intn(2); k > 0; k-- {
 		ro := respObj{Name: looseName(r), ContentType: "text/html", Status: int64([]int{200, 301, 404, 503}[r.Intn(4)]), Response: "OK", Content: "<html>" + ident(r) + "</html>"}
+		switch r.Intn(4) {
+		case 0:
+			ro.Content = `{"a":{"b":"c"}}` + randText(r, 20) // JSON: contains the sequence that closes a long string
+		case 1:
+			ro.Content = randText(r, 40)
+			ro.ContentType = "text/plain; x=" + randText(r, 8)
+		}
 		if len(s.Conditions) > 0 && r.Intn(2) == 0 {
 			ro.RequestCondition = s.Conditions[r.Intn(len(s.Conditions))].Name
 		}
@@ -749,10 +763,95 @@ func (c *checker) checkAll(sn *snippet.Snippets, items []snippet.Item) {
 			if isUser {
 				continue
 			}
-			if _, err := parser.New(lexer.NewFromString(it.Data)).ParseSnippetVCL(); err != nil {
+			stmts, err := parser.New(lexer.NewFromString(it.Data)).ParseSnippetVCL()
+			if err != nil {
 				kind := strings.SplitN(strings.TrimPrefix(it.Name, "Remote."), ":", 2)[0]
 				c.viol(kind+"/noparse", fmt.Sprintf("generated %s snippet %s does not parse: %s", scope, it.Name, firstLine(err.Error())), it)
+				continue
 			}
+			c.checkRuleFaithful(it, stmts)
+		}
+	}
+}
+
+// checkRuleFaithful: the regular expression / substitution of a regex header rule and the content / content type
+// of a response object must read back from the generated statements exactly as given.
+func (c *checker) checkRuleFaithful(it *snippet.Item, stmts []ast.Statement) {
+	parts := strings.SplitN(strings.TrimPrefix(it.Name, "Remote."), ":", 2)
+	if len(parts) != 2 {
+		return
+	}
+	var strs func(n any, out *[][]string)
+	_ = strs
+	switch parts[0] {
+	case "Header":
+		for _, h := range c.set.Headers {
+			if h.Name != parts[1] || h.Action != "regex" && h.Action != "regex_repeat" {
+				continue
+			}
+			found := false
+			walkStatements(stmts, func(st ast.Statement) {
+				set, ok := st.(*ast.SetStatement)
+				if !ok {
+					return
+				}
+				call, ok := set.Value.(*ast.FunctionCallExpression)
+				if !ok || len(call.Arguments) != 3 {
+					return
+				}
+				re, ok1 := call.Arguments[1].(*ast.String)
+				su, ok2 := call.Arguments[2].(*ast.String)
+				if !ok1 || !ok2 {
+					return
+				}
+				found = true
+				if re.Value != h.Regex {
+					c.viol("Header.regex/"+worstClass(h.Regex)+"/mismatch", fmt.Sprintf("header rule regex %q became %q", clip(h.Regex, 80), clip(re.Value, 80)), it)
+				}
+				if su.Value != h.Substitution {
+					c.viol("Header.substitution/"+worstClass(h.Substitution)+"/mismatch", fmt.Sprintf("header rule substitution %q became %q", clip(h.Substitution, 80), clip(su.Value, 80)), it)
+				}
+			})
+			if !found {
+				c.viol("Header.regex/missing", "no regsub/regsuball call with literal pattern and substitution in the generated rule", it)
+			}
+		}
+	case "ResponseObject":
+		for _, ro := range c.set.RespObjs {
+			if ro.Name != parts[1] {
+				continue
+			}
+			walkStatements(stmts, func(st ast.Statement) {
+				switch t := st.(type) {
+				case *ast.SyntheticStatement:
+					// an empty content falls back to the response text
+					if v, ok := t.Value.(*ast.String); ok && v.Value != ro.Content && !(ro.Content == "" && v.Value == ro.Response) {
+						c.viol("ResponseObject.content/"+worstClass(ro.Content)+"/mismatch", fmt.Sprintf("response object content %q became %q", clip(ro.Content, 80), clip(v.Value, 80)), it)
+					}
+				case *ast.SetStatement:
+					if v, ok := t.Value.(*ast.String); ok && strings.EqualFold(t.Ident.Value, "obj.http.Content-Type") && v.Value != ro.ContentType {
+						c.viol("ResponseObject.content_type/"+worstClass(ro.ContentType)+"/mismatch", fmt.Sprintf("content type %q became %q", ro.ContentType, v.Value), it)
+					}
+				}
+			})
+		}
+	}
+}
+
+func walkStatements(stmts []ast.Statement, f func(ast.Statement)) {
+	for _, st := range stmts {
+		f(st)
+		switch t := st.(type) {
+		case *ast.IfStatement:
+			walkStatements(t.Consequence.Statements, f)
+			for _, a := range t.Another {
+				walkStatements(a.Consequence.Statements, f)
+			}
+			if t.Alternative != nil {
+				walkStatements(t.Alternative.Consequence.Statements, f)
+			}
+		case *ast.BlockStatement:
+			walkStatements(t.Statements, f)
 		}
 	}
 }
@@ -869,7 +968,7 @@ func runSet(oc *fw.Outcome, s resSet) {
 			nt = true
 		}
 	}
-	for _, path := range []string{"terraform", "api"} {
+	for _, path := range []string{"terraform", "api", "remote"} {
 		oc.Evals++
 		c := &checker{oc: oc, set: s, path: path}
 		var sn *snippet.Snippets
@@ -884,6 +983,12 @@ func runSet(oc *fw.Outcome, s resSet) {
 					return
 				}
 				f = terraform.NewTerraformFetcher(svcs)
+			} else if path == "remote" {
+				// the real snippet/remote fetcher against a fake Fastly API
+				saved := http.DefaultTransport
+				http.DefaultTransport = &fakeAPI{s: s}
+				defer func() { http.DefaultTransport = saved }()
+				f = remote.NewFastlyApiFetcher("svc", "key", 20*time.Second)
 			} else {
 				f = &fakeFetcher{s: s}
 			}
